@@ -15,6 +15,11 @@ CHECKS = {
          "Partial claim (fault/time/input clauses): seeded search over generated typed programs (all integer widths, reals, bit strings, TIME, STRING, enums, arrays, structs, functions, stateful FBs, std FBs, every loop/branch form) driven through histories of cycles with boundary inputs, extreme clocks and budget faults landing inside any nesting of calls and loops; after every cycle the outcome must be Ok or a value-dependent fault, nothing may panic or abort, no call frame may remain and the statement count must stay bounded. Agreement of checker and interpreter over the whole grammar is exercised as a by-product only. Sampling, not proof.",
          "Trusts ProgGen's loop bounds (termination cap), the H2 budget hook, and the value-dependent fault set taken from the property text. Static-class errors raised on slots that already hold a drifted type tag are attributed to the open C03 finding (signature .../with-tag-drift).",
          "DESIGN.md section 3 C01"),
+ "C03": ("exploration",
+         "deterministic simulation: storage-wide declared-type invariant after every simulated operation; exhaustively enumerated typed-assignment matrix (11 write mechanisms x 16x16 elementary type pairs) + seeded ProgGen histories of cycles, boundary I/O latching, value faults, restarts, save + power cycle",
+         "Partial claim (history clauses + the enumerated matrix): after every operation every program/FB/struct/array slot is compared with its declaration (VarDef.type_id resolved through the runtime's type registry, subranges and enums range-checked) and every global with its build-time tag; each mismatch is attributed to the operation and slot class that wrote it. The matrix is finite and enumerated completely; histories are sampled. Not claimed: all (declared, expression) pairs beyond the matrix shapes; debugger writes.",
+         "Trusts Runtime::programs()/function_blocks()/registry() as the declaration source and ProgGen's naming scheme for attribution. The pervasive defect (write paths store the source tag) is recorded as open findings per mechanism; other mechanisms (I/O latch, FOR control, restart, retain load, initialisers, same-type writes, ranges) still alarm.",
+         "DESIGN.md section 3 C03"),
  "C07": ("exploration",
          "deterministic simulation: seeded address maps x churning/fault-injecting logging drivers x debugger I/O writes and forces x faulted cycles, lock-step byte-level image model and call-phase oracle",
          "Seeded search over address maps (all 15 elementary types, X/B/W/D/L, overlapping/adjacent spans) and cycle histories with drivers that change their bytes on every read call; per cycle the merged driver/runtime event log must be reads-once -> program code -> writes-once, every program copy of every input must equal the independent decode of the bytes latched in that cycle, the published image must equal previous image + independent encodes (nothing outside addressed spans changes) and a faulted cycle must not deliver program-computed outputs. Sampling, not proof.",
@@ -30,6 +35,16 @@ CHECKS = {
          "Per seeded snapshot pair (all 31 retainable value shapes, boundary bit patterns, nested containers): clean round trip; then for EVERY prefix of the file-system call sequence of store(s_new) and sampled byte cuts of each write, the disk a dying process leaves is materialised and load() must return exactly s_old or s_new (never Err, empty or mixed); short writes and EINTR must be absorbed; every truncation and seeded bit flips / length blow-ups / splices / garbage / 200k-deep nesting of the stored bytes must load as Ok or Err with no panic, abort or single allocation beyond 64x file size. Crash points are enumerated completely per pair; pairs and corruptions are sampled.",
          "Trusts the fs shim (H3) logging every mutation FileRetainStore performs and the process-death disk model (completed system calls visible, last write possibly torn). Power-loss reordering is not judged.",
          "DESIGN.md section 3 C10"),
+ "C13": ("exploration",
+         "deterministic simulation: op-by-op refinement of the incremental analysis database against a fresh database; seeded add/edit/remove/re-add/query histories with cancellation faults; eager and lazy twin databases",
+         "Seeded search over edit histories (1-5 files of a cross-referencing project family with duplicates, dangling references, syntax errors, empty files; structural edits, break/repair, swaps, moves, whitespace-only edits, removes, re-adds, queries in any order, salsa cancellation between operations) against the real trust_hir::Database and Project: after every operation every query answer (diagnostics, analyze, file_symbols, type_of at every expression, expr_id_at_offset at every token, source text, name resolution, file ids) of every live file must equal the answer of a brand-new database loaded with the current texts under the same FileIds, repeated queries must repeat, removed files must answer like unknown ones, nothing may panic. An eager twin sweeps all queries after every op, a lazy twin only answers the history's own queries (so the history decides what was memoised before which edit). Sampling, not proof.",
+         "Trusts a fresh Database (same code, cold path) as the reference for 'from-scratch analysis' and ascending-FileId load order. Concurrent readers are not explored (salsa's internals are outside the simulator).",
+         "DESIGN.md section 5 C13"),
+ "C18": ("exploration",
+         "deterministic simulation: nine simulated clients with every credential kind against the real control dispatcher (in-process, hook H7); seeded request histories with clock jumps, token rotation/expiry/revocation, garbled lines; independent required-role table + before/after effect probe",
+         "Seeded search over request histories (all 53 dispatcher request types with valid and invalid params, unknown/case-variant/garbled/truncated/duplicated/oversized lines, pair.start/claim/revoke, auth-token rotation and removal, debug and mode flips, simulated-clock jumps around token expiry) from nine clients (none, wrong token, admin token, pairing tokens at each role, expired, revoked, previous admin token) against one real ControlState: an observed effect (11-component state probe + resource command log) requires role(credential) >= required(type) by a table written from the property; with a token configured an invalid credential causes no effect and gets an error-only reply without runtime data; every type that ever shows an effect must require more than viewer; debug-class requests are refused and effect-free while debug is off; every line gets exactly one well-formed reply; no panic, no hang. Sampling, not proof.",
+         "Trusts the role table written from the property (DESIGN Appendix B), the effect probe's completeness, and the request-type list self-test (source scan of the handler tables). Socket transport, historian, descriptor watcher are stubs; the resource thread is a canned responder fenced after every request.",
+         "DESIGN.md section 5 C18"),
  "C14": ("exploration",
          "deterministic simulation: simulated editor (UTF-16 reference buffer) vs the real language server over an in-process transport; seeded change-notification histories; lock-step text equality, position round trips, twin-server and ASCII-projection-server answer comparison",
          "Seeded search over change histories (insert/delete/replace, multi-change batches, full-text changes, positions at/after line end and EOF, close/re-open, several documents; texts with Latin-1, CJK, astral, ZWJ, combining marks, CRLF/lone CR/mixed terminators) against the real StLanguageServer behind tower_lsp::LspService driven in-process: after every notification the server's document text must equal the editor's buffer byte for byte; offset<->position conversion must be the identity on every denotable boundary; at query points documentSymbol / semanticTokens (full, delta, range) / diagnostics / formatting / rangeFormatting / documentHighlight must equal those of a twin server that only saw the final text, and positions must equal those of an ASCII/LF projection of the text. Sampling, not proof.",
